@@ -15,6 +15,7 @@ mod fam_oracle;
 mod fam_health;
 mod fam_tx;
 mod fam_xfer;
+mod fam_ixf;
 mod fam_gate;
 mod fam_integr;
 mod fam_panic;
@@ -74,7 +75,7 @@ fn main() {
             // A panic INSIDE a generator (not in the code under test, whose panics are caught per case and are outcomes)
             // must not kill the run for one unlucky seed: keep what was produced, continue with the advanced PRNG state.
             // More than 25 such panics means something systematic: the process then fails as before.
-            let known = ["fx", "wrapper", "bank", "curve", "integr", "tokenfee", "bankstate", "signer", "admin", "account", "fees", "tx", "bkr", "xfer", "liq", "oracle", "health", "panic"];
+            let known = ["fx", "wrapper", "bank", "curve", "integr", "tokenfee", "bankstate", "signer", "admin", "account", "fees", "tx", "bkr", "xfer", "ixf", "liqix", "liq", "oracle", "health", "panic"];
             if !known.contains(&fam) {
                 eprintln!("unknown family {}", fam);
                 std::process::exit(2);
@@ -98,6 +99,8 @@ fn main() {
                 "tx" => fam_tx::gen(&mut rng, want, &mut part),
                 "bkr" => fam_bkr::gen(&mut rng, want, &mut part),
                 "xfer" => fam_xfer::gen(&mut rng, want, &mut part),
+                    "ixf" => fam_ixf::gen(&mut rng, want, &mut part),
+                    "liqix" => mon_c05::gen(&mut rng, want, &mut part),
                 "liq" => fam_liq::gen(&mut rng, want, &mut part),
                 "oracle" => fam_oracle::gen(&mut rng, want, &mut part),
                 "health" => fam_health::gen(&mut rng, want, &mut part),
@@ -139,7 +142,7 @@ fn main() {
             let n: usize = args[4].parse().unwrap();
             let mut rng = Rng::new(seed ^ 0x5EED_0000 ^ prop.bytes().fold(0u64, |a, b| a.wrapping_mul(131).wrapping_add(b as u64)));
             let mut rep = mon::Report::default();
-            let known = ["IX", "C02", "C03", "C08", "BR", "GATE", "LIQ", "TXS", "BKR", "XFER", "VEN", "ORA", "C12", "C13", "C14", "C15", "C17", "C18", "C19", "C20"];
+            let known = ["IX", "C02", "C03", "C08", "BR", "GATE", "LIQ", "TXS", "BKR", "XFER", "VEN", "ORA", "C12", "ADM", "C13", "C14", "C15", "C17", "C18", "C19", "C20"];
             if !known.contains(&prop) {
                 eprintln!("no monitor for {}", prop);
                 std::process::exit(2);
@@ -162,7 +165,7 @@ fn main() {
                 "XFER" => fam_xfer::monitor(&mut rng, budget, &mut rep),
                 "VEN" => mon_venue::run(&mut rng, budget, &mut rep),
                 "ORA" => fam_oracle::monitor(&mut rng, budget, &mut rep),
-                "C12" => mon_c12::run(&mut rng, budget, &mut rep),
+                "C12" | "ADM" => mon_c12::run(&mut rng, budget, &mut rep),
                 "C13" => mon_c13::run(&mut rng, budget, &mut rep),
                 "C14" => mon_c14::run(&mut rng, budget, &mut rep),
                 "C15" => mon_c15::run(&mut rng, budget, &mut rep),
